@@ -264,6 +264,12 @@ def run_op(lay, op):
         return e1.observe(lay[args[0]])
     if name == "validity":
         return lay.validityerror()
+    if name == "field_depths":
+        f = lay[args[0]]
+        return [f.purelist_depth, list(f.minmax_depth), list(f.branch_depth), str(f.type({}))]
+    if name == "field_then":
+        f = lay[args[0]]
+        return e1.observe(opalpha.apply(f, args[1], list(args[2])))
     return e1.observe(opalpha.apply(lay, name, list(args)))
 
 
@@ -297,6 +303,11 @@ def special_ops(d):
         ops.append(("getitem_at", (at,)))
     for k in keys_of(d)[:2]:
         ops.append(("getitem_field", (k,)))
+        # the projected field is itself lazy: its depth bookkeeping and depth-dependent operations on it
+        ops.append(("field_depths", (k,)))
+        for opn, a in (("num", (0,)), ("num", (1,)), ("num", (-1,)), ("sum", (0, False, False)), ("sum", (1, False, False)),
+                       ("sum", (-1, False, False)), ("flatten", (1,)), ("localindex", (-1,))):
+            ops.append(("field_then", (k, opn, a)))
     ops.append(("getitem_field", ("nokey",)))
     return ops
 
@@ -860,7 +871,7 @@ class C18(runner.Check):
             cfg["id"] = 0
             cfg["path"] = tuple(case["path"])
             cfg["descs"] = [layouts.from_json(x) for x in case["layouts"]]
-            cfg["ops"] = [(wh, (o[0], tuple(o[1]))) for wh, o in case["ops"]]
+            cfg["ops"] = [(wh, (o[0], _tuplify(o[1]))) for wh, o in case["ops"]]
             ops = sorted(set(o for _, o in cfg["ops"]), key=repr)
             eager = self._eager_table(cfg["descs"], ops)
             w, results = self._execute(cfg, case["prefix"])
@@ -878,6 +889,10 @@ class C18(runner.Check):
             self._partition_case(st, T, d, layoutsem.to_list(d), case["stops"])
             return bool(st.violations), "\n".join(v["summary"] for v in st.violations[:5]) or "holds"
         return True, json.dumps(case)
+
+
+def _tuplify(x):
+    return tuple(_tuplify(y) for y in x) if isinstance(x, (list, tuple)) else x
 
 
 class _EvictingCache(dict):
